@@ -158,6 +158,9 @@ class PollQueue:
             return self.items.pop(0)
         raise queue.Empty()
 
+    def get_nowait(self):
+        return self.get(False)
+
     def qsize(self):
         return len(self.items)
 
